@@ -96,7 +96,128 @@ func (g *Gen) Scenario() {
 	t1, t2 := &handleRef{-1}, &handleRef{-1}
 	fi := -1
 	n1, n2 := 1+g.R.Intn(3), 1+g.R.Intn(3)
-	switch g.R.Intn(7) {
+	nsc := 8
+	if withObs {
+		nsc = 10
+	}
+	pick := g.R.Intn(nsc + 2)
+	if pick >= nsc {
+		g.scenarioReuse()
+		return
+	}
+	switch pick {
+	case 7: // a filter / query naming a relation target that died and whose ID was recycled
+		c1 := &handleRef{-1}
+		fu := -1
+		q = append(q, g.mkNew(t1, nil, nil), g.mkNew(c1, []int{r1}, g.relTo(r1, t1)))
+		q = append(q, func() []int64 { // typed filter with the target fixed in the filter
+			if !g.valid(t1) {
+				return nil
+			}
+			fi = len(g.S.Filters)
+			return cat([]int64{15, 0}, encList([]int{r1}), encList(nil), []int64{0}, encPairs([][2]int64{{int64(r1), int64(t1.idx)}}))
+		})
+		q = append(q, func() []int64 { // unsafe filter; the stale target is passed per query
+			fu = len(g.S.Filters)
+			return cat([]int64{15, 1}, encList([]int{r1}), encList(nil), []int64{0}, encPairs(nil))
+		})
+		if g.R.Chance(50) {
+			q = append(q, func() []int64 {
+				if fi < 0 || fi >= len(g.S.Filters) {
+					return nil
+				}
+				g.registered[fi] = true
+				return []int64{16, int64(fi)}
+			})
+		}
+		q = append(q, func() []int64 {
+			if !g.valid(t1) {
+				return nil
+			}
+			return []int64{11, int64(t1.idx)}
+		})
+		q = append(q, g.mkNew(t2, nil, nil)) // recycles the ID of t1
+		for i := 0; i < n1; i++ {
+			q = append(q, g.mkNew(&handleRef{-1}, []int{r1}, g.relTo(r1, t2)))
+		}
+		q = append(q, func() []int64 {
+			if fi < 0 || fi >= len(g.S.Filters) {
+				return nil
+			}
+			return cat([]int64{18, int64(fi)}, encPairs(nil))
+		})
+		q = append(q, func() []int64 {
+			if fu < 0 || fu >= len(g.S.Filters) || !g.valid(t1) {
+				return nil
+			}
+			return cat([]int64{18, int64(fu)}, encPairs([][2]int64{{int64(r1), int64(t1.idx)}}))
+		})
+		q = append(q, func() []int64 { // batch selection through the stale filter
+			if fi < 0 || fi >= len(g.S.Filters) {
+				return nil
+			}
+			return cat([]int64{12, int64(fi)}, encPairs(nil))
+		})
+	case 8, 9: // a wildcard observer in front of filtered ones; unregister a filtered one, then the wildcard
+		evt := []int{249, 251, 252, 253, 250}[g.R.Intn(5)]
+		b := g.firstComp(func(code int) bool { return code == CodeB })
+		if b < 0 {
+			return
+		}
+		var ois [3]int
+		mk := func(k int, for_, with []int) lazyOp {
+			return func() []int64 {
+				ois[k] = len(g.S.Observers)
+				return cat([]int64{25, int64(evt)}, encList(for_), encList(with), encList(nil), []int64{0, 0})
+			}
+		}
+		regop := func(k int, code int64) lazyOp {
+			return func() []int64 {
+				if ois[k] >= len(g.S.Observers) {
+					return nil
+				}
+				return []int64{code, int64(ois[k])}
+			}
+		}
+		var forA, withA, forB, withB []int
+		if evt == 249 || evt == 250 || g.R.Chance(50) {
+			withA, withB = []int{a}, []int{b}
+		} else {
+			forA, forB = []int{a}, []int{b}
+		}
+		q = append(q, mk(0, nil, nil), mk(1, forA, withA), mk(2, forB, withB))
+		order := [][]int{{0, 1, 2}, {0, 2, 1}, {1, 0, 2}}[g.R.Intn(3)]
+		for _, k := range order {
+			q = append(q, regop(k, 26))
+		}
+		q = append(q, regop(2, 27), regop(0, 27))
+		// trigger: create / add / remove / set with component a
+		hnd := &handleRef{-1}
+		q = append(q, g.mkNew(hnd, []int{a, b}, nil))
+		q = append(q, func() []int64 {
+			if !g.valid(hnd) {
+				return nil
+			}
+			return []int64{29, int64(hnd.idx), int64(a), 5}
+		})
+		q = append(q, func() []int64 {
+			if !g.valid(hnd) {
+				return nil
+			}
+			return cat([]int64{7, int64(hnd.idx)}, encList([]int{a}))
+		})
+		q = append(q, func() []int64 {
+			if !g.valid(hnd) {
+				return nil
+			}
+			return cat([]int64{5, int64(hnd.idx)}, encList([]int{a}))
+		})
+		q = append(q, func() []int64 {
+			if !g.valid(hnd) {
+				return nil
+			}
+			return []int64{11, int64(hnd.idx)}
+		})
 	case 0: // several source tables collapse into one destination: remove the relation component in a batch
 		q = append(q, g.mkNew(t1, nil, nil), g.mkNew(t2, nil, nil))
 		for i := 0; i < n1; i++ {
@@ -281,4 +402,64 @@ func indexOf(l []int, x int) int {
 		}
 	}
 	return 0
+}
+
+// scenarioReuse: fill a table, write values, empty it in one go (table reset, both zeroing
+// strategies: more than 64 rows of a plain component, or a pointer-bearing component), then
+// re-populate it without initial values: everything must read as zero.
+func (g *Gen) scenarioReuse() {
+	x := g.firstComp(func(code int) bool { return code == CodeA })
+	n := 66 + g.R.Intn(6)
+	if g.R.Chance(60) {
+		if c := g.firstComp(func(code int) bool { return code == CodeN1 }); c >= 0 {
+			x = c
+			n = 1 + g.R.Intn(5)
+		}
+	}
+	if x < 0 || g.S.W.IsLocked() {
+		return
+	}
+	fi := -1
+	var q []lazyOp
+	q = append(q, func() []int64 {
+		return cat([]int64{30, int64(n)}, encList([]int{x}), encPairs(nil), encPairs([][2]int64{{int64(x), int64(1000 + g.R.Intn(1000))}}))
+	})
+	q = append(q, func() []int64 {
+		fi = len(g.S.Filters)
+		return cat([]int64{15, 0}, encList([]int{x}), encList(nil), []int64{1}, encPairs(nil))
+	})
+	switch g.R.Intn(3) {
+	case 0:
+		q = append(q, func() []int64 {
+			if fi < 0 || fi >= len(g.S.Filters) {
+				return nil
+			}
+			return cat([]int64{12, int64(fi)}, encPairs(nil))
+		})
+	case 1:
+		q = append(q, func() []int64 {
+			g.registered = map[int]bool{}
+			if !g.S.W.IsLocked() {
+				g.epoch = len(g.S.Issued)
+			}
+			return []int64{13}
+		})
+	default: // batch exchange away from the table (source table reset), then back
+		b := g.firstComp(func(code int) bool { return code == CodeB })
+		if b < 0 || x == b {
+			return
+		}
+		q = append(q, func() []int64 {
+			if fi < 0 || fi >= len(g.S.Filters) {
+				return nil
+			}
+			return cat([]int64{31, int64(fi)}, encPairs(nil), encList([]int{b}), encList(nil), encPairs(nil), encPairs(nil))
+		})
+	}
+	m := 1 + g.R.Intn(4)
+	q = append(q, func() []int64 {
+		return cat([]int64{30, int64(m)}, encList([]int{x}), encPairs(nil), encPairs(nil))
+	})
+	q = append(q, func() []int64 { return cat([]int64{1}, encList([]int{x})) })
+	g.queue = append(g.queue, q...)
 }
